@@ -10,7 +10,7 @@ import (
 
 func init() {
 	register("C27", []string{"./sstable/...", "./objstorage"}, runC27)
-	propExplain["C27"] = "Decides the gating clause of C27: in block.Reader.doRead the bytes read are used (compression indicator, decompression, block metadata init, successful return) only through the nil-error edges of the read and of the checksum validation; every function of the sstable packages that validates a block checksum returns success only if the validation passed; a failed read is never put into the block cache as a value; the table footer's block handles are decoded only after the footer checksum matched (for formats that have one); raw object reads inside the sstable packages occur only in the listed owners. (K1) the one-block caches of the value fetchers (valblk.valueBlockFetcher, blob.cachedReader) record which block they hold only on the nil-error edge of that block's verified read, and the blob reader marks its block not-loaded before it replaces the buffer; singleLevelIterator.loadDataBlock returns with its data-block iterator invalid, untouched, or initialised from the block its recorded handle names. Does not decide checksum collision probability or legacy footers without a checksum."
+	propExplain["C27"] = "Decides the gating clause of C27: in block.Reader.doRead the bytes read are used (compression indicator, decompression, block metadata init, successful return) only through the nil-error edges of the read and of the checksum validation; every function of the sstable packages that validates a block checksum returns success only if the validation passed; a failed read is never put into the block cache as a value; the table footer's block handles are decoded only after the footer checksum matched (for formats that have one); raw object reads inside the sstable packages occur only in the listed owners. (K1) the one-block caches of the value fetchers (valblk.valueBlockFetcher, blob.cachedReader) record which block they hold only on the nil-error edge of that block's verified read, the blob reader marks its block not-loaded before it replaces the buffer and changes its (block id, value-id offset, physical index) tuple together or not at all; singleLevelIterator.loadDataBlock returns with its data-block iterator invalid, untouched, or initialised from the block its recorded handle names. Does not decide checksum collision probability or legacy footers without a checksum."
 }
 
 func runC27(c *Ctx) {
@@ -216,6 +216,24 @@ func runC27K1(c *Ctx) {
 			KillAfter("tag-invalidated", isConstBoolStore(loaded, true))
 		res := fl.Analyze(fn, emptyState())
 		c.noteFlow(fl)
+		// the tag is a tuple: (virtual id, value-id offset, physical index) change together
+		{
+			off := c.Field("C27.K1", "blob.cachedReader.currentValueBlock.valueIDOffset")
+			phys := c.Field("C27.K1", "blob.cachedReader.currentValueBlock.physicalIndex")
+			group := Or(StoreTo(vid), StoreTo(off), StoreTo(phys))
+			fl2 := NewFlow(c.P).
+				KillAfter("tag-untouched", group).
+				After("set:virtualID", StoreTo(vid)).After("set:valueIDOffset", StoreTo(off)).After("set:physicalIndex", StoreTo(phys)).
+				KillAfter("tag-whole", group).
+				Derive("tag-whole", []string{"tag-untouched"}, []string{"set:virtualID", "set:valueIDOffset", "set:physicalIndex"})
+			fl2.MaxDepth = 0
+			e2 := emptyState()
+			e2.add("tag-untouched")
+			e2.add("tag-whole")
+			res2 := fl2.Analyze(fn, e2)
+			c.noteFlow(fl2)
+			c.Require("C27.K1", res2, AnyReturn, "the block id, its value-id offset and the physical index are updated together or not at all", []string{"tag-whole"})
+		}
 		n := c.Require("C27.K1", res, StoreTo(vid), "the cached block id is updated only after that block was read successfully", []string{"ok:value-block-read"})
 		n += c.Require("C27.K1", res, isConstBoolStore(loaded, true), "the block is marked loaded only after it was read successfully", []string{"ok:value-block-read"})
 		n += c.Require("C27.K1", res, read, "the previous block is marked not-loaded before its buffer is replaced", []string{"tag-invalidated"})
